@@ -1382,6 +1382,55 @@ impl Sim {
                 while self.deliver_s2c(client, 0, 0) {}
                 self.client_frame(client);
             }
+            Step::DivergeEpisode { slot, k, rev } => {
+                if self.cfg.vis == 0 || slot >= nslots || !self.running {
+                    return;
+                }
+                let Some(e) = self.slots[slot] else { return };
+                if !self.marked[slot] || matches!(k, K::X | K::Y | K::P) {
+                    return;
+                }
+                let auth: Vec<usize> = (0..nclients).filter(|&c| self.authorized(c)).collect();
+                if auth.len() < 2 {
+                    return;
+                }
+                let viewers: Vec<usize> = auth.iter().copied().filter(|&c| self.visible_to(c, slot)).collect();
+                if viewers.is_empty() || viewers.len() == auth.len() {
+                    // make it an entity that only some clients see (subject to the usual rules of the `Vis` step), and let
+                    // everybody catch up
+                    let st = if viewers.is_empty() { Step::Vis { client: *auth.last().unwrap(), slot, visible: true } } else { Step::Vis { client: auth[0], slot, visible: false } };
+                    self.step(&st);
+                    self.step(&Step::ServerFrame { tick: true });
+                    for &c in &auth {
+                        self.step(&Step::MutFirst { client: c, rev: false, ack: true });
+                    }
+                }
+                let viewers: Vec<usize> = auth.iter().copied().filter(|&c| self.visible_to(c, slot)).collect();
+                if viewers.is_empty() || viewers.len() == auth.len() || self.slots[slot] != Some(e) {
+                    return;
+                }
+                let has = self.has_k(e, k);
+                self.step(&if has { Step::Remove { slot, k } } else { Step::Insert { slot, k } });
+                self.step(&Step::ServerFrame { tick: true });
+                self.step(&Step::MutateAll { k: K::A });
+                self.step(&Step::ServerFrame { tick: true });
+                for c in viewers {
+                    self.step(&Step::MutFirst { client: c, rev, ack: false });
+                }
+                self.flags.insert("update_ticks_diverged_then_mutations_first");
+            }
+            Step::MutFirst { client, rev, ack } => {
+                if client >= nclients || !self.clients[client].connected {
+                    return;
+                }
+                while self.deliver_s2c(client, 1, if rev { u16::MAX } else { 0 }) {}
+                self.client_frame(client);
+                while self.deliver_s2c(client, 0, 0) {}
+                self.client_frame(client);
+                if ack {
+                    while self.deliver_c2s(client, 0, 0) {}
+                }
+            }
             Step::EventsOnly { client } => {
                 if client >= nclients || !self.clients[client].connected {
                     return;
